@@ -170,6 +170,12 @@ Spec == Init /\ [][Next]_vars
 
 Done == pc = "done"
 
+(* termination: under weak fairness of the loop every behaviour reaches "done"  *)
+(* (checked as a temporal property in the *_live configurations; in the other   *)
+(* configurations it follows from StackBounded and the finite, acyclic graph)   *)
+FairSpec == Spec /\ WF_vars(Next)
+Terminates == <>Done
+
 (* ---- the property ------------------------------------------------------- *)
 ModelSatisfiesProperty == Done => IsDCNb(n, nb, core, y, k)
 
@@ -203,13 +209,13 @@ StackBounded == Len(stack) <= n * n
 NoProvisionalLeft == Done => \A j \in 1..n : y[j] >= OUTLIER
 
 (* ---- cross-check of the predicates' component map ----------------------- *)
+(* R = the core rows density-connected to p by the path definition *)
+CompRowOK(comp, p, R) == \A q \in core : (comp[p] = comp[q]) <=> (q \in R)
+CompAllOK(cnb, comp) ==
+    /\ \A p \in core : CompRowOK(comp, p, {q \in core : DensityConnected(cnb, core, p, q)})
+    /\ \A p \in (1..n) \ core : comp[p] = 0
 CompMatchesDefinition ==
-    (pc = "outer" /\ i = 1) =>
-        LET cnb  == CoreNb(nb, core)
-            comp == CompOf(n, CoreNb(nb, core), core)
-        IN  /\ \A p \in core : \A q \in core :
-                  (comp[p] = comp[q]) <=> DensityConnected(cnb, core, p, q)
-            /\ \A p \in (1..n) \ core : comp[p] = 0
+    (pc = "outer" /\ i = 1) => CompAllOK(CoreNb(nb, core), CompOf(n, CoreNb(nb, core), core))
 
 (* ---- spec -> impl: one line per terminal state -------------------------- *)
 ReplayOut == (Emit /\ Done) =>
